@@ -179,3 +179,13 @@ package priorityqueue
 //@ func New
 //@   modifies nothing
 //@   ensures [C06 C15 C17] fresh(result) && Inv(result) && N(result) == 0
+
+//@ -- String: starts with the container's name; reads only (C15, C18)
+//@ func Queue.String
+//@   requires Inv(queue)
+//@   modifies nothing
+//@   ensures [C15 C17 C18] hasPrefix(result, "PriorityQueue")
+//@   loop 1:
+//@     invariant 0 - 1 <= rangeindex && rangeindex < rangelen && (rangelen == 0 ==> rangeindex == 0 - 1) && rangelen == N(queue)
+//@     invariant len(values) == N(queue) && (isnil(values) || fresh(arr(values)))
+//@     decreases rangelen - rangeindex
